@@ -61,14 +61,19 @@ type epochInfo struct {
 	parent  int
 	all     bool             // every key is affected (call havoc)
 	ghosts  bool             // ghost keys are affected too (uncontracted call)
-	unknown map[string]bool  // keys stored through addresses of unknown origin
-	known   map[string][]int // keys stored through addresses rooted at known allocations
+	unknown map[string]bool     // keys stored through addresses of unknown origin
+	known   map[string][]string // keys stored through addresses rooted at known allocations (id terms)
+	entryClock string           // loop havoc: allocation clock at loop entry (frame covers older objects only)
+	newClock   string           // allocation clock after the havoc (loaded pointers are not younger)
 	conds   []string
 	parents []int
 	memo    map[string]string
 }
 
 func (ei *epochInfo) affected(key string) bool {
+	if key == clockKey {
+		return false
+	}
 	if strings.HasPrefix(key, "ghost:") {
 		return ei.ghosts
 	}
@@ -88,8 +93,7 @@ type shared struct {
 	strLits     map[string]string
 	globals     map[string]string
 	fresh       int
-	privID      int
-	escID       int
+	allocN      int
 	entryHeap   map[string]string
 	unsupported []string
 	assumptions map[string]bool
@@ -133,14 +137,16 @@ type VC struct {
 	addrOut   map[*ssa.BasicBlock]map[string]ssa.Value
 	curVars   map[string]ssa.Value
 	curAddr   map[string]ssa.Value
-	allocID   map[ssa.Value]int
-	fvRoot    map[*ssa.FreeVar]int // root id a free variable is bound to (0 = unknown)
+	curHeap   *Heap
+	allocID   map[ssa.Value]string
+	fvRoot    map[*ssa.FreeVar]string // root id term a free variable is bound to ("" = unknown)
 	preEnv    *SpecEnv
 }
 
 const W64 = "18446744073709551616"
 const S63 = "9223372036854775808"
-const escBase = 100000
+const clockKey = "ghost:!clock"
+const freshRoot = "!fresh"
 
 func (v *VC) emit(f string, a ...any) { fmt.Fprintf(v.body, f+"\n", a...) }
 
@@ -409,8 +415,8 @@ func (v *VC) resolve(key string, e int) string {
 		}
 		v.heapVer++
 		name = fmt.Sprintf("HE%d_%s", v.heapVer, sanitize(key))
-		v.emit("(declare-const %s %s)", name, v.heapSortOf(key))
-		v.emitFrame(key, name, par, ei.known[key], ei.extOnly(key))
+		v.declHeap(name, key)
+		v.emitFrame(key, name, par, ei.known[key], ei.extOnly(key), ei.entryClock, ei.newClock)
 	case "merge":
 		var ps []string
 		same := true
@@ -438,7 +444,7 @@ func (v *VC) resolve(key string, e int) string {
 }
 
 // emitFrame: relation between a havoced heap version and its predecessor.
-func (v *VC) emitFrame(key, nm, old string, known []int, extOnly bool) {
+func (v *VC) emitFrame(key, nm, old string, known []string, extOnly bool, entryClock, newClock string) {
 	srt := v.heapKeys[key]
 	if strings.HasPrefix(key, "ghost:") {
 		return
@@ -447,22 +453,110 @@ func (v *VC) emitFrame(key, nm, old string, known []int, extOnly bool) {
 	if extOnly {
 		conds = append(conds, "(not (ext p))")
 	}
+	if entryClock != "" {
+		conds = append(conds, fmt.Sprintf("(<= (root p) %s)", entryClock))
+	}
 	for _, id := range known {
-		conds = append(conds, fmt.Sprintf("(not (= (root p) %d))", id))
+		conds = append(conds, fmt.Sprintf("(not (= (root p) %s))", id))
 	}
-	if len(conds) > 0 || !extOnly {
-		c := "true"
-		if len(conds) == 1 {
-			c = conds[0]
-		} else if len(conds) > 1 {
-			c = "(and " + strings.Join(conds, " ") + ")"
-		}
-		v.emit("(assert (forall ((p Ptr)) (! (=> %s (= (select %s p) (select %s p))) :pattern ((select %s p)))))", c, nm, old, nm)
+	c := "true"
+	if len(conds) == 1 {
+		c = conds[0]
+	} else if len(conds) > 1 {
+		c = "(and " + strings.Join(conds, " ") + ")"
 	}
+	v.emit("(assert (forall ((p Ptr)) (! (=> %s (= (select %s p) (select %s p))) :pattern ((select %s p)))))", c, nm, old, nm)
 	if !strings.HasPrefix(srt, "RAW:") && isPtrLike(srt) {
+		sel := ptrOf(srt, fmt.Sprintf("(select %s p)", nm))
 		// values in cells visible to callees never point to private allocations
-		v.emit("(assert (forall ((p Ptr)) (! (=> (ext p) (ext %s)) :pattern ((select %s p)))))", ptrOf(srt, fmt.Sprintf("(select %s p)", nm)), nm)
+		v.emit("(assert (forall ((p Ptr)) (! (=> (ext p) (ext %s)) :pattern ((select %s p)))))", sel, nm)
+		if newClock != "" {
+			// no cell holds a pointer to an object that is not allocated yet
+			v.emit("(assert (forall ((p Ptr)) (! (<= (root %s) %s) :pattern ((select %s p)))))", sel, newClock, nm)
+		}
 	}
+}
+
+var intKeyRange = map[string][2]string{
+	"int": {"(- " + S63 + ")", "9223372036854775807"}, "int64": {"(- " + S63 + ")", "9223372036854775807"},
+	"int32": {"(- 2147483648)", "2147483647"}, "int16": {"(- 32768)", "32767"}, "int8": {"(- 128)", "127"},
+	"uint": {"0", "18446744073709551615"}, "uint64": {"0", "18446744073709551615"}, "uintptr": {"0", "18446744073709551615"},
+	"uint32": {"0", "4294967295"}, "uint16": {"0", "65535"}, "uint8": {"0", "255"},
+}
+
+// heapTypeAxiom: every cell of an integer heap holds a value of its machine type.
+func (v *VC) heapTypeAxiom(nm, key string) string {
+	if r, ok := intKeyRange[key]; ok {
+		return fmt.Sprintf("(assert (forall ((p Ptr)) (! (and (<= %s (select %s p)) (<= (select %s p) %s)) :pattern ((select %s p)))))", r[0], nm, nm, r[1], nm)
+	}
+	if key == "string" {
+		return ""
+	}
+	if v.heapKeys[key] == "Slice" {
+		return fmt.Sprintf("(assert (forall ((p Ptr)) (! (and (<= 0 (s-off (select %s p))) (<= 0 (s-len (select %s p))) (<= (s-len (select %s p)) (s-cap (select %s p)))) :pattern ((select %s p)))))", nm, nm, nm, nm, nm)
+	}
+	return ""
+}
+
+// declHeap declares a new (havoced) version of a heap with its type invariant.
+func (v *VC) declHeap(nm, key string) {
+	v.emit("(declare-const %s %s)", nm, v.heapSortOf(key))
+	if ax := v.heapTypeAxiom(nm, key); ax != "" {
+		v.emit("%s", ax)
+	}
+}
+
+func (v *VC) clock(h *Heap) string { return v.heapGet(h, clockKey, "RAW:Int") }
+
+// advanceClock: the allocation clock may have advanced by an unknown amount (callee allocations).
+func (v *VC) advanceClock(h *Heap) (old, nw string) {
+	old = v.clock(h)
+	nw = v.freshName("clk")
+	v.emit("(declare-const %s Int)", nw)
+	v.emit("(assert (>= %s %s))", nw, old)
+	h.m[clockKey] = nw
+	return
+}
+
+// newAlloc: a fresh object id, younger than everything that exists.
+func (v *VC) newAlloc(private bool, h *Heap) string {
+	v.allocN++
+	a := fmt.Sprintf("a!%d", v.allocN)
+	v.emit("(declare-const %s Int)", a)
+	v.emit("(assert (> %s %s))", a, v.clock(h))
+	if private {
+		v.emit("(assert (priv %s))", a)
+	} else {
+		v.emit("(assert (not (priv %s)))", a)
+	}
+	h.m[clockKey] = a
+	return a
+}
+
+// validFact: the value does not refer to an object that has not been allocated yet.
+func (v *VC) validFact(t types.Type, e string, h *Heap) string {
+	return v.validFactC(t, e, v.clock(h))
+}
+
+func (v *VC) validFactC(t types.Type, e string, clk string) string {
+	switch s := v.sortOf(t); s {
+	case "Ptr", "Slice", "Iface":
+		return fmt.Sprintf("(<= (root %s) %s)", ptrOf(s, e), clk)
+	}
+	if st, ok := t.Underlying().(*types.Struct); ok {
+		var fs []string
+		s := v.sortOf(t)
+		for i := 0; i < st.NumFields(); i++ {
+			f := v.validFactC(st.Field(i).Type(), fmt.Sprintf("(%s-f%d %s)", s, i, e), clk)
+			if f != "true" {
+				fs = append(fs, f)
+			}
+		}
+		if len(fs) > 0 {
+			return "(and " + strings.Join(fs, " ") + ")"
+		}
+	}
+	return "true"
 }
 
 func (v *VC) newEpoch(ei *epochInfo) int {
@@ -493,21 +587,22 @@ func (v *VC) heapSet(h *Heap, key, term string) string {
 // may change; results of later loads are arbitrary (but never private pointers). Ghost state is
 // havoced too when ghosts is set (callee without any contract).
 func (v *VC) havocAll(h *Heap, ghosts bool) {
+	_, nw := v.advanceClock(h)
 	keys := make([]string, 0, len(h.m))
 	for k := range h.m {
 		keys = append(keys, k)
 	}
 	sort.Strings(keys)
-	ne := v.newEpoch(&epochInfo{kind: "havoc", parent: h.epoch, all: true, ghosts: ghosts})
+	ne := v.newEpoch(&epochInfo{kind: "havoc", parent: h.epoch, all: true, ghosts: ghosts, newClock: nw})
 	for _, k := range keys {
-		if strings.HasPrefix(k, "ghost:") && !ghosts {
+		if k == clockKey || (strings.HasPrefix(k, "ghost:") && !ghosts) {
 			continue
 		}
 		old := h.m[k]
 		v.heapVer++
 		nm := fmt.Sprintf("H%d_%s", v.heapVer, sanitize(k))
-		v.emit("(declare-const %s %s)", nm, v.heapSortOf(k))
-		v.emitFrame(k, nm, old, nil, true)
+		v.declHeap(nm, k)
+		v.emitFrame(k, nm, old, nil, true, "", nw)
 		h.m[k] = nm
 	}
 	h.epoch = ne
@@ -882,39 +977,15 @@ func (v *VC) closureLocal(mc *ssa.MakeClosure) bool {
 	return true
 }
 
-func (v *VC) assignAllocs(fn *ssa.Function) {
-	for _, b := range fn.Blocks {
-		for _, in := range b.Instrs {
-			switch a := in.(type) {
-			case *ssa.Alloc:
-				v.allocID[a] = v.newID(v.isPrivate(a))
-			case *ssa.MakeMap:
-				v.allocID[a] = v.newID(v.isPrivate(a))
-			case *ssa.MakeSlice:
-				v.allocID[a] = v.newID(false)
-			case *ssa.MakeClosure:
-				v.allocID[a] = v.newID(false)
-			}
-		}
-	}
-}
-
-func (v *VC) newID(private bool) int {
-	if private {
-		v.privID++
-		return v.privID
-	}
-	v.escID++
-	return escBase + v.escID
-}
-
-// rootOf: allocation id an address is derived from, or 0 when unknown.
-func (v *VC) rootOf(x ssa.Value) int {
+// rootOf: id term of the allocation an address is derived from; "" when unknown; freshRoot when
+// the object is created later than the current program point (inside the loop / callee).
+func (v *VC) rootOf(x ssa.Value) string {
 	switch a := x.(type) {
-	case *ssa.Alloc:
-		return v.allocID[a]
-	case *ssa.MakeMap:
-		return v.allocID[a]
+	case *ssa.Alloc, *ssa.MakeMap:
+		if id, ok := v.allocID[a]; ok {
+			return id
+		}
+		return freshRoot
 	case *ssa.FieldAddr:
 		return v.rootOf(a.X)
 	case *ssa.IndexAddr:
@@ -924,5 +995,5 @@ func (v *VC) rootOf(x ssa.Value) int {
 	case *ssa.FreeVar:
 		return v.fvRoot[a]
 	}
-	return 0
+	return ""
 }
